@@ -26,6 +26,11 @@ func Run(cfg hx.Config) error {
 	runApk(r, rnd.Fork(), cfg)
 	runOsRelease(r, rnd.Fork(), cfg)
 	runPython(r, rnd.Fork(), cfg)
+	runNodejs(r, rnd.Fork(), cfg)
+	runRuby(r, rnd.Fork(), cfg)
+	if err := runOsOwned(r, rnd.Fork(), cfg); err != nil {
+		return err
+	}
 	if err := runRpm(r, rnd.Fork(), cfg); err != nil {
 		return err
 	}
